@@ -33,7 +33,13 @@ def docs():
                 children=[MSEC("abs1", "*", "impls")])
     # a component type that extends a type of the schema under another key type
     d5 = SCHEMA(types=list(packages.CONTEXT), children=[MSEC("abs1", "*", "impls"), MSEC("wbase", "+", "bases")])
-    return [d1, d2, d3, d4, d5, copy.deepcopy(d1)]
+    # the abstract type, a section type holding a slot of it and one implementer come from a library schema
+    # (<import src>); the schema adds an implementer of its own, a package %import-ed by the text another one:
+    # all three fit the slots inside the library's section type as well as the schema's own
+    d7 = SCHEMA(types=[schemas.IMPORTSRC("zcvpkg_lib"), TYPE("mx", [K("k1")], implements="labs"),
+                       TYPE("ux", [K("k2")], extends="l1")],
+                children=[MSEC("lbox", "*", "boxes"), SEC("labs", "*", "one")])
+    return [d1, d2, d3, d4, d5, copy.deepcopy(d1), d7]
 
 
 LINES = {
@@ -47,6 +53,7 @@ LINES = {
         "<pa2 fixed/>", "<pc1 fixed/>"],
     2: ["%import zcvpkg_a", "%import zcvpkg_b", "<box>", "</box>", "<pa1 n1/>", "<pb1/>", "<pa1/>", "%import zcvpkg_c"],
     3: ["%import zcvpkg_a", "%import zcvpkg_b", "<pa1 n1/>", "<pb1 n2/>", "<pa2/>", "<t1/>", "%import zcvpkg_nocomp"],
+    6: ["<lbox>", "</lbox>", "<mx/>", "<l1/>", "%import zcvpkg_l2", "<pl2/>", "<mx fixed/>", "<ux/>", "<pl2 fixed/>"],
     4: ["%import zcvpkg_d", "<pd1 n1/>", "<wbase n2/>", "<wbase n3>", "</wbase>", "Gamma gv", "<pd1>", "</pd1>", "own v1"],
 }
 
@@ -137,7 +144,7 @@ def run(chk):
         sc.packages = packages.abstract_packages()
         sc.proj_recs = proj_recs(sc)
         maxlen = 3 if quick else 4
-        chk.rule = ("3 schemas (abstract types with implementing, extending and unrelated concrete types; abstract slots "
+        chk.rule = ("7 schemas (abstract types with implementing, extending and unrelated concrete types; abstract slots "
                     "named '*', '+' and fixed; nested) x every text of <= %d lines over: %%import of 3 generated component "
                     "packages (one in another letter case), of a package without component, a plain module, a missing "
                     "package and a name with an empty dotted part; headers of every schema / package type and of the "
@@ -148,10 +155,20 @@ def run(chk):
                 for combo in itertools.product(LINES[sid], repeat=n):
                     if sid == 2 and combo.count("<box>") != combo.count("</box>"):
                         continue
+                    if sid == 6 and (combo.count("<lbox>") != combo.count("</lbox>")
+                                     or (n == maxlen and "<lbox>" not in combo)):
+                        continue
                     if sid == 4 and (combo.count("<pd1>") + combo.count("<wbase n3>")
                                      != combo.count("</pd1>") + combo.count("</wbase>")):
                         continue
                     sc.add(sid, {"d/main.conf": list(combo)}, meta={"nontrivial": n > 0})
+        # library slots (schema 6) filled by the schema's own, the library's and %import-ed implementers: longer texts
+        for combo in (["%import zcvpkg_l2", "<lbox>", "<pl2/>", "</lbox>"], ["<lbox>", "%import zcvpkg_l2", "<pl2 fixed/>", "</lbox>"],
+                      ["<lbox>", "<mx/>", "<l1/>", "<pl2/>", "</lbox>"], ["<lbox>", "<mx/>", "<l1/>", "<ux/>", "</lbox>"],
+                      ["%import zcvpkg_l2", "<lbox>", "<mx fixed/>", "<pl2/>", "<l1/>", "</lbox>", "<pl2/>"],
+                      ["<lbox>", "<mx/>", "</lbox>", "<lbox>", "<l1 fixed/>", "<mx/>", "</lbox>", "<mx/>"],
+                      ["<lbox>", "<pl2/>", "</lbox>", "%import zcvpkg_l2"]):
+            sc.add(6, {"d/main.conf": list(combo)}, meta={"nontrivial": True})
         # the texts of schema 0 with %import once more, with an override of the top-level key (for the sessions
         # that go through one ExtendedConfigLoader)
         with_opts = []
